@@ -6,8 +6,9 @@
 use serde_json::{json, Value};
 
 use crate::core::{
-    env_seed, explore, install_quiet_panic_hook, load_known, matches_known, minimise, reach_selfcheck,
-    replay, replay_all, write_evidence, write_replay, ExploreCfg, Failure, KnownFinding, Scenario, Tier,
+    env_seed, explore, hang_seconds, install_quiet_panic_hook, load_known, matches_known, minimise, reach_selfcheck,
+    replay, replay_all, run_seed, with_deadline, write_evidence, write_replay, ExploreCfg, Failure, KnownFinding, Outcome, Rng,
+    Scenario, Tier,
 };
 
 pub struct Args {
@@ -132,7 +133,16 @@ pub fn run_scenario<S: Scenario>(s: &S, level: &str, quick_runs: u64, thorough_r
                 return 2;
             }
         };
-        return match replay(s, &text) {
+        let hang = hang_seconds();
+        let res = with_deadline(
+            hang,
+            || replay(s, &text),
+            || {
+                println!("replayed: class=hang:operation-did-not-return-within-{hang}s");
+                println!("VIOLATION property={} replay={}", s.property(), path);
+            },
+        );
+        return match res {
             Ok(Some(f)) => {
                 println!("replayed: class={} seq={} detail={}", f.class, f.seq, f.detail);
                 let known = load_known(s.property());
@@ -181,7 +191,25 @@ pub fn run_scenario<S: Scenario>(s: &S, level: &str, quick_runs: u64, thorough_r
         println!("{l}");
     }
 
-    let out = explore(s, &cfg, &known);
+    let on_hang = |run: u64| {
+        // A run that never returns: report it un-minimised (its candidates would hang too).
+        let mut rng = Rng::new(run_seed(cfg.seed, s.property(), run));
+        let case = s.generate(&mut rng, cfg.tier);
+        let f = Failure {
+            class: format!("hang:operation-did-not-return-within-{}s", hang_seconds()),
+            seq: 0,
+            detail: json!({"note": "one simulated run (normally < 1 ms) did not return; reported without minimisation"}),
+        };
+        let path = write_replay(s, cfg.seed, run, s.n_events(&case), &case, &f);
+        println!("violation at run {run} (seed {}): class={}", cfg.seed, f.class);
+        println!("VIOLATION property={} replay={}", s.property(), path.display());
+        if !a.no_evidence {
+            let out: Outcome<S::Case> = Outcome::empty(s.reach_names(), s.fault_names(), s.sample(&case));
+            write_evidence(s, level, &cfg, &out, 1, &klines, json!({"violation": {"run": run, "class": f.class, "replay": path.display().to_string()}}));
+        }
+        std::process::exit(1);
+    };
+    let out = explore(s, &cfg, &known, &on_hang);
     if a.log_hash {
         println!("LOGHASH {:016x}", out.log_hash);
     }
@@ -198,7 +226,22 @@ pub fn run_scenario<S: Scenario>(s: &S, level: &str, quick_runs: u64, thorough_r
     if let Some((run, case, failure)) = &out.first_failure {
         violations = 1;
         let orig_events = s.n_events(case);
-        let shrunk = minimise(s, case.clone(), failure.clone());
+        let progress: std::sync::Mutex<Option<(S::Case, Failure)>> = std::sync::Mutex::new(None);
+        let shrunk = with_deadline(
+            300,
+            || minimise(s, case.clone(), failure.clone(), &progress),
+            || {
+                // minimisation got stuck (a candidate hangs): report the best case so far
+                let (c, f) = progress.lock().ok().and_then(|g| g.clone()).unwrap_or((case.clone(), failure.clone()));
+                let path = write_replay(s, cfg.seed, *run, orig_events, &c, &f);
+                println!("violation at run {} (seed {}): class={} (minimisation interrupted)", run, cfg.seed, f.class);
+                println!("detail: {}", f.detail);
+                println!("VIOLATION property={} replay={}", s.property(), path.display());
+                if !a.no_evidence {
+                    write_evidence(s, level, &cfg, &out, 1, &klines, json!({"violation": {"run": run, "class": f.class, "replay": path.display().to_string()}}));
+                }
+            },
+        );
         let path = write_replay(s, cfg.seed, *run, orig_events, &shrunk.case, &shrunk.failure);
         println!(
             "violation at run {} (seed {}): class={} | events {} -> {} after {} shrink attempts",
